@@ -88,6 +88,7 @@ func (self *FieldMask) print(buf *strings.Builder, indent int, desc *thrift_refl
 	if !self.Exist() {
 		return
 	}
+	desc = unwrapDesc(desc)
 	if self.typ == FtStruct {
 		st, err := desc.GetStructDescriptor()
 		if err != nil {
